@@ -33,6 +33,12 @@ pub fn gen_group(rng: &mut Rng, n_files: usize, cfg_depth: usize, odd_names: boo
     if odd_names {
         paths.push("it's/a\\b \"q\"".to_string());
         paths.push("汉/\u{1f600}".to_string());
+        // backslashes in front of every kind of character (an unescaped `\u` / `\x` / trailing `\` is not a string literal),
+        // line terminators, the line / paragraph separators
+        let nasty = ["pages\\user\\index", "lib\\xtra", "dir\\", "a\\u{1}\\0\\8", "line\nbreak\r", "sep\u{2028}\u{2029}end", "q\\\"r", "${x}`t`"];
+        paths.push(nasty[rng.below(nasty.len())].to_string());
+        paths.push(nasty[rng.below(nasty.len())].to_string());
+        paths.dedup();
     }
     let mut files = vec![];
     let mut features: std::collections::BTreeMap<&'static str, usize> = Default::default();
@@ -40,7 +46,7 @@ pub fn gen_group(rng: &mut Rng, n_files: usize, cfg_depth: usize, odd_names: boo
         // includes refer to later files only (no cycles); spelled relative or absolute, with or without suffix
         let mut inc = vec![];
         for q in paths.iter().skip(i + 1) {
-            if q.contains('"') || q.contains('\'') {
+            if q.contains('"') || q.contains('\'') || q.contains('\\') || q.contains('\n') || q.contains('\u{2028}') || q.contains('$') {
                 continue;
             }
             inc.push(format!("/{}", q));
